@@ -118,8 +118,16 @@ func (n *Node) open(fresh bool) {
 	}
 }
 
+// FixedIdentity, when set, freezes the process-wide node key: BecomeSelf / ActAs no longer write the globals. For race-detector
+// runs, where a harness write of a process global racing with a leftover product goroutine of an earlier case would be
+// reported as a data race of the product.
+var FixedIdentity *Deputy
+
 // BecomeSelf installs this node's identity into the process globals (node key, empty signature cache).
 func (n *Node) BecomeSelf() {
+	if FixedIdentity != nil {
+		return
+	}
 	if n.Self != nil {
 		deputynode.SetSelfNodeKey(n.Self.NodeKey)
 	} else {
